@@ -176,6 +176,13 @@ func (i *Interface) getRecord(dbName string, dbKey string, mustBeWriteable bool)
 		if !i.options.hasAccessPermission(r) {
 			return nil, db, ErrPermissionDenied
 		}
+		if mustBeWriteable {
+			// The cached copy may be outdated, check the stored record before
+			// allowing a write.
+			if err = i.checkStoredPermission(db, dbKey); err != nil {
+				return nil, db, err
+			}
+		}
 		return r, db, nil
 	}
 
@@ -220,6 +227,13 @@ func (i *Interface) getMeta(dbName string, dbKey string, mustBeWriteable bool) (
 		if !i.options.hasAccessPermission(r) {
 			return nil, db, ErrPermissionDenied
 		}
+		if mustBeWriteable {
+			// The cached copy may be outdated, check the stored record before
+			// allowing a write.
+			if err = i.checkStoredPermission(db, dbKey); err != nil {
+				return nil, db, err
+			}
+		}
 		return r.Meta(), db, nil
 	}
 
@@ -233,6 +247,29 @@ func (i *Interface) getMeta(dbName string, dbKey string, mustBeWriteable bool) (
 	}
 
 	return m, db, nil
+}
+
+// checkStoredPermission checks if the interface options permit access to the
+// record as it is currently stored in the database. This is used to guard
+// writes that are based on a cached copy of a record, which is not invalidated
+// when another interface marks the record as secret or crown jewel.
+func (i *Interface) checkStoredPermission(db *Controller, dbKey string) error {
+	if i.options.HasAllPermissions() {
+		return nil
+	}
+
+	m, err := db.GetMeta(dbKey)
+	switch {
+	case err == nil:
+		if !m.CheckPermission(i.options.Local, i.options.Internal) {
+			return ErrPermissionDenied
+		}
+		return nil
+	case errors.Is(err, ErrNotFound):
+		return nil
+	default:
+		return err
+	}
 }
 
 // InsertValue inserts a value into a record.
